@@ -34,7 +34,7 @@ for p in props:
         na.append({"property_id": pid, "reason": d.get("na_reason", "not claimed yet: the Lean model, theorems and correspondence for this property are not built; no other technique is substituted")})
 man = {
     "version": 1,
-    "setup_cmd": "python3 tools/gen_roots.py && (test ! -f tools/extract_tables.py || python3 tools/extract_tables.py) && cd lean && lake build CnfgenModel Lemmas Props driver",
+    "setup_cmd": "python3 tools/extract_tables.py && python3 tools/gen_roots.py && cd lean && lake build CnfgenModel driver $(python3 ../tools/gen_roots.py --list-props)",
     "hooks": {"guard": "CNFGEN_VERIF", "enable": "none needed: all instrumentation is monkeypatching inside the harness process; the guard name is reserved and unused",
               "baseline_off_cmd": "python3 tools/baseline.py", "source_commits": [], "add_only": True},
     "engines": [{"name": "lean-model+correspondence", "path": "lean/ harness/ check",
